@@ -43,8 +43,10 @@ from . import core as _core
 _regenerate_helpers = _regen.hook(TRUSTED, ['helpers'])   # py2v: regenerate coq/Gen/HelpersGen.v from the source first
 # py2v_sum: regenerate coq/Gen/SummaryGen.v (biom/util.py compute_counts_per_sample_stats) as well
 _SUM_TRUSTED = []
-_regenerate_summary = _regen_sum.hook(_SUM_TRUSTED, ['summary'], 'coq/Model/Summary.v (r_stats)',
-                                      'coq/Proofs/GenBridgeSummaryProofs.v')
+# and coq/Gen/SummaryTableGen.v (biom/table.py Table.is_empty, Table.get_table_density)
+_regenerate_summary = _regen_sum.hook(_SUM_TRUSTED, ['summary', 'density'], 'coq/Model/Summary.v (r_stats, r_empty, r_density)',
+                                      'coq/Proofs/GenBridgeSummaryProofs.v, coq/Proofs/GenBridgeSummaryTableProofs.v',
+                                      vocab='coq/Gen/SumPrelude.v, coq/Gen/SumTablePrelude.v')
 
 
 def regenerate():
